@@ -585,6 +585,11 @@ req0_ctx_reset(req0_ctx *ctx)
 	if (ctx->rep_msg != NULL) {
 		nni_msg_free(ctx->rep_msg);
 		ctx->rep_msg = NULL;
+		// The unread reply is gone, so the socket is no longer
+		// readable (the master context backs the poll descriptor).
+		if (ctx == &s->master) {
+			nni_pollable_clear(&s->readable);
+		}
 	}
 	ctx->conn_reset = false;
 }
